@@ -124,7 +124,7 @@ theorem byte_is_i8 (nm : String) (allow : Bool) :
 theorem enum_rule (k : GoKind) (nm : String) (d : List Char) (allow : Bool) (t : Ty) (r : List Char)
     (h : doParseType (.prim k nm) true d allow = some (t, r)) :
     t = .base .enum ↔
-      (kindTag k = some .i64 ∧ GoTy.prim k nm ≠ .prim .int64 "int64" ∧
+      (kindTag k = some .i64 ∧ isPredeclared64 (.prim k nm) = false ∧
        ∃ tv rest, readToken d false = some (tv, rest) ∧ isKeyword .i64 tv = false) := by
   unfold doParseType at h
   cases hk : kindTag k with
@@ -177,16 +177,16 @@ theorem enum_rule (k : GoKind) (nm : String) (d : List Char) (allow : Bool) (t :
                   | true =>
                     have : tag = .i64 := by simpa using htag
                     subst this
-                    cases hv : (GoTy.prim k nm == GoTy.prim GoKind.int64 "int64") with
+                    cases hv : isPredeclared64 (GoTy.prim k nm) with
                     | true =>
                       simp only [Bool.true_and, Bool.not_true, Bool.false_eq_true, ↓reduceIte, baseOfTag]
                       constructor
                       · intro hb; cases hb
                       · rintro ⟨_, hne, _⟩
-                        exact absurd (by simpa using hv) hne
+                        cases hne
                     | false =>
                       simp only [Bool.true_and, Bool.not_false, ↓reduceIte, true_iff]
-                      refine ⟨by simp, by simpa using hv, _, _, htok, ?_⟩
+                      refine ⟨by simp, trivial, _, _, htok, ?_⟩
                       simpa [keywordOf] using hinf
           · cases hm
 
